@@ -15,6 +15,12 @@
 //	(b) a stress loop in a child process: goroutines released together call g.Stabilize /
 //	    g.ParallelStabilize on a graph whose node functions keep, per calling pass, a count
 //	    of node functions in flight; two distinct passes in flight at once is a violation.
+//	(d) cancellation scenarios in a child process: a cancelled ParallelStabilize / Stabilize
+//	    must not return while a node function of that pass is still running (gated node
+//	    functions, context cancelled before the call / by a node function / from another
+//	    goroutine while the dispatcher waits for a slot), IsStabilizing() may turn false only
+//	    then, and a Stabilize issued at that moment is either turned away or runs without
+//	    overlapping the cancelled pass.
 //	(c) re-entrant calls from a node function, an update handler, stabilization start/end
 //	    handlers and another goroutine while a pass runs: each must return
 //	    incr.ErrAlreadyStabilizing and leave NumNodes, the recompute heap length, the
@@ -609,6 +615,401 @@ func firstLines(s string, n int) string {
 	return strings.Join(lines, " | ")
 }
 
+// ------------------------------------------------------------------ (d) cancellation (child process)
+
+// A cancelled pass must not come back while one of its node functions is still running:
+// returning releases the status word, and the next Stabilize is then let in next to the
+// straggler.  The scenarios force the situation with gates (channels), not sleeps: node
+// functions count themselves in per calling pass and block until the driver opens the
+// gate; the only timing involved is a bounded wait for the library to go quiet, and being
+// too impatient can only hide a violation, never invent one.
+
+type cancelScenario struct {
+	Kind  string `json:"kind"` // ParallelStabilize | Stabilize
+	P     int    `json:"parallelism"`
+	W     int    `json:"width"` // nodes queued (one height block for the parallel pass)
+	Mode  string `json:"cancel"`
+	Gated string `json:"gated"` // which node functions block on the gate
+}
+
+type cancelOutcome struct {
+	Scenario        cancelScenario `json:"scenario"`
+	Err             string         `json:"returned_error"`
+	ReturnedEarly   bool           `json:"returned_while_its_node_functions_ran"`
+	RunningAtReturn int            `json:"node_functions_of_the_pass_running_at_return"`
+	StartedLater    int            `json:"node_functions_of_the_pass_started_after_return"`
+	StatusAtCheck   bool           `json:"is_stabilizing_at_check"`
+	FollowUp        string         `json:"follow_up_stabilize"`
+	MaxPasses       int            `json:"max_passes_in_node_functions"`
+	StartedByPass   map[string]int `json:"node_functions_started_by_pass"`
+	Problems        []string       `json:"problems,omitempty"`
+}
+
+type passTracker struct {
+	mu      sync.Mutex
+	active  map[int]int
+	started map[int]int
+	max     int
+}
+
+func newPassTracker() *passTracker {
+	return &passTracker{active: map[int]int{}, started: map[int]int{}}
+}
+
+func (t *passTracker) enter(id int) int {
+	t.mu.Lock()
+	defer t.mu.Unlock()
+	t.active[id]++
+	t.started[id]++
+	if len(t.active) > t.max {
+		t.max = len(t.active)
+	}
+	return t.started[id]
+}
+
+func (t *passTracker) exit(id int) {
+	t.mu.Lock()
+	if t.active[id]--; t.active[id] <= 0 {
+		delete(t.active, id)
+	}
+	t.mu.Unlock()
+}
+
+func (t *passTracker) running(id int) int {
+	t.mu.Lock()
+	defer t.mu.Unlock()
+	return t.active[id]
+}
+
+func (t *passTracker) startedBy(id int) int {
+	t.mu.Lock()
+	defer t.mu.Unlock()
+	return t.started[id]
+}
+
+// waitQuiet waits until the number of running node functions of a pass has not moved for
+// 30ms and (it has reached want or a second has passed); bounded by 3s.
+func (t *passTracker) waitQuiet(id, want int) {
+	start := time.Now()
+	last, lastChange := t.running(id), start
+	for {
+		time.Sleep(time.Millisecond)
+		now := time.Now()
+		if cur := t.running(id); cur != last {
+			last, lastChange = cur, now
+		}
+		if now.Sub(lastChange) >= 30*time.Millisecond && (last >= want || now.Sub(start) >= time.Second) {
+			return
+		}
+		if now.Sub(start) >= 3*time.Second {
+			return
+		}
+	}
+}
+
+const (
+	cancelledPass = 1
+	followUpPass  = 2
+	finalPass     = 3
+)
+
+func runCancelScenario(sc cancelScenario, rng *hx.Rand) cancelOutcome {
+	out := cancelOutcome{Scenario: sc, StartedByPass: map[string]int{}}
+	problem := func(format string, args ...any) { out.Problems = append(out.Problems, fmt.Sprintf(format, args...)) }
+	g := incr.New(incr.OptGraphParallelism(sc.P))
+	tr := newPassTracker()
+	gate := make(chan struct{})
+	ctx1, cancel := context.WithCancel(context.WithValue(context.Background(), passKey{}, cancelledPass))
+	defer cancel()
+	var armed atomic.Bool
+	const cancelAtSerial = 10 // the serial pass is cancelled by its 10th node function
+	const gateAtSerial = 5    // ... or held at its 5th while another goroutine cancels
+	vars := make([]incr.VarIncr[int], sc.W)
+	obs := make([]incr.ObserveIncr[int], sc.W)
+	want := make([]int, sc.W)
+	for i := range vars {
+		vars[i] = incr.Var(g, rng.Range(0, 1000))
+		m := incr.MapContext(g, vars[i], func(ctx context.Context, x int) (int, error) {
+			id := passID(ctx)
+			seq := tr.enter(id)
+			defer tr.exit(id)
+			if !armed.Load() {
+				return x + 1, nil
+			}
+			if id == cancelledPass && sc.Mode == "by-a-node-function" {
+				if (sc.Kind == "ParallelStabilize" && seq == 1) || (sc.Kind == "Stabilize" && seq == cancelAtSerial) {
+					cancel()
+				}
+			}
+			switch sc.Gated {
+			case "all":
+				<-gate
+			case "one":
+				if id == cancelledPass && seq == gateAtSerial {
+					<-gate
+				}
+			}
+			return x + 1, nil
+		})
+		obs[i] = incr.MustObserve(g, m)
+	}
+	if err := g.Stabilize(context.WithValue(context.Background(), passKey{}, 0)); err != nil {
+		problem("initial Stabilize: %v", err)
+		return out
+	}
+	for i := range vars {
+		x := rng.Range(1001, 1<<20)
+		vars[i].Set(x)
+		want[i] = x + 1
+	}
+	armed.Store(true)
+	if sc.Mode == "before-the-call" {
+		cancel()
+	}
+	done := make(chan error, 1)
+	go func() {
+		if sc.Kind == "ParallelStabilize" {
+			done <- g.ParallelStabilize(ctx1)
+		} else {
+			done <- g.Stabilize(ctx1)
+		}
+	}()
+	// let the pass get as far as the gates allow
+	full := 1
+	if sc.Gated == "all" {
+		full = sc.P
+		if sc.W < full {
+			full = sc.W
+		}
+	}
+	switch sc.Mode {
+	case "before-the-call":
+		// nothing to wait for: either it returns at once or it runs into the gates
+		tr.waitQuiet(cancelledPass, 0)
+	case "by-a-node-function":
+		if sc.Gated != "none" {
+			tr.waitQuiet(cancelledPass, 1)
+		}
+	case "from-another-goroutine":
+		// every slot is taken by a gated node function and the dispatcher waits for one
+		// (serial: the pass sits in its gated node function); now cancel
+		tr.waitQuiet(cancelledPass, full)
+		cancel()
+	}
+	returned := false
+	var callErr error
+	grace := 60 * time.Millisecond
+	if sc.Gated == "none" {
+		grace = 10 * time.Second // nothing holds the pass: it must come back by itself
+	}
+	select {
+	case callErr = <-done:
+		returned = true
+	case <-time.After(grace):
+	}
+	out.RunningAtReturn = tr.running(cancelledPass)
+	out.StatusAtCheck = g.IsStabilizing()
+	startedAtCheck := tr.startedBy(cancelledPass)
+	if returned {
+		if out.RunningAtReturn > 0 {
+			out.ReturnedEarly = true
+			problem("%s returned (%v) while %d node function(s) of that pass were still running; IsStabilizing()=%v right after",
+				sc.Kind, callErr, out.RunningAtReturn, out.StatusAtCheck)
+		} else if out.StatusAtCheck {
+			problem("%s returned (%v) but IsStabilizing() is still true", sc.Kind, callErr)
+		}
+	} else {
+		if sc.Gated == "none" {
+			problem("cancelled %s did not return within 10s", sc.Kind)
+			return out
+		}
+		if !out.StatusAtCheck {
+			problem("IsStabilizing() is false while %s has not returned (%d of its node functions running)", sc.Kind, out.RunningAtReturn)
+		}
+	}
+	// a Stabilize issued right now: turned away, or let in -- then it must not overlap
+	followCtx := context.WithValue(context.Background(), passKey{}, followUpPass)
+	followDone := make(chan error, 1)
+	go func() { followDone <- g.Stabilize(followCtx) }()
+	var followErr error
+	followReturned := false
+	select {
+	case followErr = <-followDone:
+		followReturned = true
+	case <-time.After(60 * time.Millisecond):
+	}
+	switch {
+	case followReturned && errors.Is(followErr, incr.ErrAlreadyStabilizing):
+		out.FollowUp = "ErrAlreadyStabilizing"
+		if returned && out.RunningAtReturn == 0 {
+			problem("Stabilize after the cancelled pass had returned got ErrAlreadyStabilizing")
+		}
+	case followReturned:
+		out.FollowUp = fmt.Sprintf("returned %v", followErr)
+	default:
+		out.FollowUp = "let in (blocked at the gate)"
+	}
+	if !returned && out.FollowUp != "ErrAlreadyStabilizing" {
+		problem("Stabilize issued while the cancelled %s had not returned was not turned away: %s", sc.Kind, out.FollowUp)
+	}
+	// open the gates, let everything finish
+	close(gate)
+	if !returned {
+		select {
+		case callErr = <-done:
+			returned = true
+			if n := tr.running(cancelledPass); n > 0 {
+				out.ReturnedEarly = true
+				out.RunningAtReturn = n
+				problem("%s returned (%v) while %d node function(s) of that pass were still running", sc.Kind, callErr, n)
+			}
+			startedAtCheck = tr.startedBy(cancelledPass)
+		case <-time.After(10 * time.Second):
+			problem("cancelled %s did not return within 10s of the gates opening", sc.Kind)
+			return out
+		}
+	}
+	if callErr != nil {
+		out.Err = callErr.Error()
+	} else {
+		out.Err = "<nil>"
+	}
+	if !followReturned {
+		select {
+		case followErr = <-followDone:
+		case <-time.After(10 * time.Second):
+			problem("follow-up Stabilize did not return within 10s of the gates opening")
+			return out
+		}
+	}
+	if followErr != nil && !errors.Is(followErr, incr.ErrAlreadyStabilizing) {
+		problem("follow-up Stabilize failed: %v", followErr)
+	}
+	// nothing of the cancelled pass may start once it has returned
+	time.Sleep(20 * time.Millisecond)
+	out.StartedLater = tr.startedBy(cancelledPass) - startedAtCheck
+	if out.StartedLater > 0 && !out.ReturnedEarly {
+		problem("%d node function(s) of the cancelled pass started after it had returned", out.StartedLater)
+	}
+	if n := tr.running(cancelledPass); n > 0 {
+		problem("%d node function(s) of the cancelled pass still running 20ms after the gates opened and the call returned", n)
+	}
+	tr.mu.Lock()
+	out.MaxPasses = tr.max
+	for id, n := range tr.started {
+		out.StartedByPass[fmt.Sprint(id)] = n
+	}
+	tr.mu.Unlock()
+	if out.MaxPasses > 1 {
+		problem("node functions of %d distinct passes ran at the same time (the cancelled %s and the Stabilize that followed it)", out.MaxPasses, sc.Kind)
+	}
+	if g.IsStabilizing() {
+		problem("IsStabilizing() is true after every call returned")
+	}
+	// whatever the cancelled pass left queued is picked up by a later pass
+	if err := g.Stabilize(context.WithValue(context.Background(), passKey{}, finalPass)); err != nil {
+		problem("final Stabilize: %v", err)
+	}
+	for i := range obs {
+		if obs[i].Value() != want[i] {
+			problem("observer %d holds %d after the final Stabilize, want %d", i, obs[i].Value(), want[i])
+			break
+		}
+	}
+	return out
+}
+
+func cancelScenarios() []cancelScenario {
+	var out []cancelScenario
+	for _, p := range []int{1, 2, 4} {
+		w := 3*p + 2
+		for _, mode := range []string{"before-the-call", "by-a-node-function", "from-another-goroutine"} {
+			out = append(out, cancelScenario{Kind: "ParallelStabilize", P: p, W: w, Mode: mode, Gated: "all"})
+		}
+	}
+	// serial: more queued nodes than the cancellation check stride (64)
+	out = append(out,
+		cancelScenario{Kind: "Stabilize", P: 2, W: 200, Mode: "before-the-call", Gated: "none"},
+		cancelScenario{Kind: "Stabilize", P: 2, W: 200, Mode: "by-a-node-function", Gated: "none"},
+		cancelScenario{Kind: "Stabilize", P: 2, W: 200, Mode: "from-another-goroutine", Gated: "one"})
+	return out
+}
+
+func cancelChild(seed uint64) {
+	rng := hx.NewRand(seed)
+	for _, sc := range cancelScenarios() {
+		start, _ := json.Marshal(sc)
+		fmt.Println("CANCEL-START " + string(start))
+		o := runCancelScenario(sc, rng.Fork())
+		data, _ := json.Marshal(o)
+		fmt.Println("CANCEL " + string(data))
+	}
+}
+
+func cancelParent(rep *hx.Report, distinct hx.Distinct, seed uint64) {
+	cmd := exec.Command(os.Args[0], "-child", "cancel", "-seed", fmt.Sprint(seed))
+	var stderr strings.Builder
+	cmd.Stderr = &stderr
+	stdout, err := cmd.StdoutPipe()
+	if err != nil {
+		fmt.Fprintln(os.Stderr, err)
+		os.Exit(2)
+	}
+	if err := cmd.Start(); err != nil {
+		fmt.Fprintln(os.Stderr, err)
+		os.Exit(2)
+	}
+	killed := false
+	timer := time.AfterFunc(5*time.Minute, func() { killed = true; _ = cmd.Process.Kill() })
+	var last string
+	finished := map[string]bool{}
+	sc := bufio.NewScanner(stdout)
+	sc.Buffer(make([]byte, 1<<20), 1<<20)
+	for sc.Scan() {
+		line := sc.Text()
+		switch {
+		case strings.HasPrefix(line, "CANCEL-START "):
+			last = line[len("CANCEL-START "):]
+		case strings.HasPrefix(line, "CANCEL "):
+			var o cancelOutcome
+			if json.Unmarshal([]byte(line[len("CANCEL "):]), &o) != nil {
+				continue
+			}
+			finished[last] = true
+			rep.Evaluations++
+			rep.Count("cancel-" + o.Scenario.Kind + "-" + o.Scenario.Mode)
+			name := fmt.Sprintf("%s/p=%d,w=%d/%s", o.Scenario.Kind, o.Scenario.P, o.Scenario.W, o.Scenario.Mode)
+			if o.Scenario.Mode != "before-the-call" || o.StartedByPass[fmt.Sprint(cancelledPass)] > 0 {
+				distinct.Add("cancel:" + name)
+			}
+			if len(o.Problems) > 0 {
+				rep.AddViolation(hx.Violation{Property: "C19",
+					What: fmt.Sprintf("cancelled %s (parallelism %d, %d queued nodes, context cancelled %s): %s", o.Scenario.Kind, o.Scenario.P, o.Scenario.W,
+						o.Scenario.Mode, strings.Join(o.Problems, "; ")),
+					Key: "cancel:" + name, Replay: map[string]any{"kind": "cancellation", "scenario": o.Scenario, "outcome": o}})
+			}
+			if o.Scenario.Mode == "by-a-node-function" && len(rep.Samples) < 4 {
+				rep.Samples = append(rep.Samples, map[string]any{"cancellation": o})
+			}
+		}
+	}
+	werr := cmd.Wait()
+	timer.Stop()
+	if killed {
+		werr = errors.New("cancellation child killed after 5 minutes")
+	}
+	if werr != nil {
+		tail := stderr.String()
+		if len(tail) > 1500 {
+			tail = tail[:1500]
+		}
+		var scn any
+		_ = json.Unmarshal([]byte(last), &scn)
+		rep.AddViolation(hx.Violation{Property: "C19", What: fmt.Sprintf("process died during the cancellation scenario %s (%v): %s", last, werr, firstLines(tail, 3)),
+			Key: "cancel:crash", Replay: map[string]any{"kind": "cancellation", "scenario": scn, "stderr": tail}})
+	}
+}
+
 // ------------------------------------------------------------------ (c) re-entrant calls
 
 type snapshot struct {
@@ -816,17 +1217,23 @@ func main() {
 		stressChild(*seed, *rounds, *goroutines)
 		return
 	}
+	if *child == "cancel" {
+		cancelChild(*seed)
+		return
+	}
 	rep := hx.NewReport("statusrace", *seed)
 	rng := hx.NewRand(*seed)
 	distinct := hx.Distinct{}
 	expertReplay(rep, distinct)
 	reentrant(rep, distinct, rng.Fork())
+	cancelParent(rep, distinct, rng.Uint64())
 	stressParent(rep, distinct, rng.Uint64(), *rounds, *goroutines)
 	rep.Distinct = len(distinct)
 	rep.Rule = fmt.Sprintf("expert-API replay of the model's refutation schedule + every interleaving of 2 and of 3 logical callers' "+
 		"EnsureNotStabilizing/StabilizeStart/StabilizeEnd (exhaustive: 20 + 1680); re-entrant calls for outer x inner in {Stabilize, ParallelStabilize} x %d call sites; "+
-		"%d stress rounds of %d goroutines released together. Non-trivial = an interleaving in which some operation runs while another caller is between its "+
-		"check and its end, a re-entrant case whose call site was reached, a stress round in which at least one call was turned away", len(sites), *rounds, *goroutines)
+		"%d cancellation scenarios (ParallelStabilize at parallelism 1/2/4 over a gated block of 3p+2 nodes, serial Stabilize over 200 nodes; cancelled before the call, "+
+		"by a node function, from another goroutine); %d stress rounds of %d goroutines released together. Non-trivial = a cancellation scenario in which the cancelled pass started a node function (or was cancelled mid-pass), an interleaving in which some operation runs while another caller is between its "+
+		"check and its end, a re-entrant case whose call site was reached, a stress round in which at least one call was turned away", len(sites), len(cancelScenarios()), *rounds, *goroutines)
 	rep.Exhaustive = true
 	if *jsonOut != "" {
 		if err := rep.Write(*jsonOut); err != nil {
